@@ -50,6 +50,11 @@ type outcome struct {
 	impl   *File
 	parsed *parsed
 	comp   *compileResult
+	// the sibling package (same declarations, an import path that differs in punctuation only),
+	// extracted into the same destination package
+	sibSrc  []byte
+	sibErr  error
+	pairErr []string // type errors of the two wrapper files taken together
 }
 
 type env struct {
@@ -118,6 +123,11 @@ func (e *env) writeModule(jobs []job) error {
 		if err := write(j.Dir, j.Files); err != nil {
 			return err
 		}
+		if j.Sibling != nil {
+			if err := write(j.Sibling.Dir, j.Sibling.Files); err != nil {
+				return err
+			}
+		}
 	}
 	return nil
 }
@@ -175,6 +185,9 @@ func (e *env) execute(jobs []job) []*outcome {
 			defer wg.Done()
 			sem <- struct{}{}
 			o.src, o.err = runExtract(o.j)
+			if o.j.Sibling != nil {
+				o.sibSrc, o.sibErr = runExtract(*o.j.Sibling)
+			}
 			<-sem
 		}(outs[i])
 	}
@@ -195,6 +208,11 @@ func (e *env) execute(jobs []job) []*outcome {
 		}
 		o.parsed, o.impl = p, p.file
 		o.comp = e.chk.compile(o.src, o.view, p)
+		if o.j.Sibling != nil && o.sibErr == nil {
+			if _, err := e.chk.checkSource(o.j.Sibling.ImportPath, o.j.Sibling.Files); err == nil {
+				o.pairErr = e.chk.compilePair(o.src, o.sibSrc)
+			}
+		}
 	}
 	return outs
 }
@@ -208,18 +226,52 @@ func floatsAgree(o *VObj, raw string) bool {
 	return v.Kind() != constant.Unknown && constant.Compare(v, token.EQL, o.cval)
 }
 
-// packageClass names the listed class a package as a whole belongs to ("" = none): the classes whose
-// effect shows in the import block or in the text as a whole.
-func (e *env) packageClass(v *VPkg) string {
-	if !goIdent(mangle(v.ImportPath)) {
+// complexAgrees: the two nested literals ("TOK:text;TOK:text") are faithful when go/constant builds the
+// constant itself from them, the way the generated expression does.
+func complexAgrees(o *VObj, raw string) bool {
+	parts := strings.Split(raw, ";")
+	if o.cval == nil || len(parts) != 2 {
+		return false
+	}
+	var vs [2]constant.Value
+	for i, p := range parts {
+		k := strings.IndexByte(p, ':')
+		if k < 0 {
+			return false
+		}
+		tok := token.INT
+		if p[:k] == "FLOAT" {
+			tok = token.FLOAT
+		}
+		vs[i] = constant.MakeFromLiteral(p[k+1:], tok, 0)
+		if vs[i].Kind() == constant.Unknown {
+			return false
+		}
+	}
+	v := constant.BinaryOp(vs[0], token.ADD, constant.MakeImag(vs[1]))
+	return v.Kind() != constant.Unknown && constant.Compare(constant.ToComplex(v), token.EQL, constant.ToComplex(o.cval))
+}
+
+// fixedImportNames are the names of the packages every wrapper file may import itself.
+func fixedImportClash(v *VPkg) bool {
+	if v.Name == "reflect" && v.ImportPath != "reflect" {
+		return true
+	}
+	if (v.Name == "constant" && v.ImportPath != "go/constant") || (v.Name == "token" && v.ImportPath != "go/token") {
+		// go/constant and go/token are imported when a constant is bound as a literal
 		for i := range v.Objs {
 			o := &v.Objs[i]
-			// a wrapper type is emitted: its name is not an identifier and go/format rejects the file
-			if o.Kind == "iface" && o.Exported && !o.Generic && !(len(o.Methods) == 0 && o.Embeds != 0) {
-				return "import-path-not-an-identifier"
+			if o.Exported && o.Kind == "const" && o.Untyped && o.CKind != "bool" {
+				return true
 			}
 		}
 	}
+	return false
+}
+
+// packageClass names the listed class a package as a whole belongs to ("" = none): the classes whose
+// effect shows in the import block or in the text as a whole.
+func (e *env) packageClass(v *VPkg, j job) string {
 	for _, ic := range importClasses {
 		for i := range v.Objs {
 			if contains(v.classesOf(&v.Objs[i], e.restricted), ic) {
@@ -227,37 +279,84 @@ func (e *env) packageClass(v *VPkg) string {
 			}
 		}
 	}
-	// every binding the extractor emits is a literal (untyped integer, float or string constants only):
-	// the package is imported and never named
-	lits, named := 0, 0
-	for i := range v.Objs {
-		o := &v.Objs[i]
-		if !o.Exported {
-			continue
-		}
-		switch o.Kind {
-		case "const":
-			if o.Untyped && (o.CKind == "int" || o.CKind == "float" || o.CKind == "string") {
-				lits++
-			} else {
-				named++
-			}
-		case "var":
-			named++
-		case "func", "type":
-			if !o.Generic {
-				named++
-			}
-		case "iface":
-			if !o.Generic && !(len(o.Methods) == 0 && o.Embeds != 0) {
-				named++
-			}
-		}
+	// the package is called like one of the packages the wrapper file imports for itself
+	if fixedImportClash(v) {
+		return "package-named-like-wrapper-import"
 	}
-	if lits > 0 && named == 0 {
-		return "only-literal-bindings"
+	// two packages whose import paths differ in punctuation only, wrapped into one destination package
+	if j.Sibling != nil && mangle(j.Sibling.ImportPath) == mangle(j.ImportPath) && j.Sibling.Dest == j.Dest {
+		return "wrapper-prefix-collision"
 	}
 	return ""
+}
+
+// repairedShapes names the shapes of the repaired findings an object has (distribution buckets: the
+// default stream must keep producing them, now as inputs inside the domain).
+func repairedShapes(v *VPkg, o *VObj) []string {
+	var out []string
+	if !o.Exported {
+		return nil
+	}
+	if contains([]string{"osExit", "osFindProcess", "logFatal", "logFatalf", "logFatalln", "logLogger", "logNew"}, v.Name+o.Name) && v.ImportPath != v.Name {
+		out = append(out, "os/log symbol of a package outside the standard library")
+	}
+	if !goIdent(strings.NewReplacer("/", "_", "-", "_", ".", "_", "~", "_").Replace("_" + v.ImportPath + "_")) && o.Kind == "iface" && !o.Generic && o.MethodSet {
+		out = append(out, "interface of a package whose import path has other punctuation than / - . ~")
+	}
+	switch o.Kind {
+	case "const":
+		if o.Untyped && o.CKind == "complex" {
+			out = append(out, "untyped complex constant")
+			for _, n := range []*VNum{o.Re, o.Im} {
+				if len(n.Int) > 300 || len(n.Num) > 300 || len(n.Den) > 300 {
+					out = append(out, "untyped complex constant beyond complex128")
+				}
+			}
+		}
+	case "iface":
+		if o.Generic {
+			return out
+		}
+		if !o.MethodSet && len(o.Methods) > 0 {
+			out = append(out, "constraint interface with methods")
+		}
+		if o.MethodSet && len(o.Methods) == 0 && o.Embeds > 0 {
+			out = append(out, "interface that only embeds empty interfaces")
+		}
+		if !o.MethodSet {
+			return out
+		}
+		for _, m := range o.Methods {
+			if !m.Exported {
+				continue
+			}
+			names := map[string]bool{"W": true}
+			for i, p := range m.Params {
+				n := p.Name
+				switch n {
+				case "_":
+					out = append(out, "blank parameter")
+					continue
+				case "W":
+					out = append(out, "parameter called W")
+				case "":
+					n = fmt.Sprintf("a%d", i)
+				}
+				names[n] = true
+			}
+			for _, p := range m.Results {
+				if p.Name == "W" {
+					out = append(out, "result called W")
+				} else if p.Name != "" && p.Name != "_" && names[p.Name] {
+					out = append(out, "result called like a generated parameter name")
+				}
+			}
+			if m.Name == "String" && !(len(m.Params) == 0 && len(m.Results) == 1 && m.Results[0].IsStr) {
+				out = append(out, "String method of another signature")
+			}
+		}
+	}
+	return out
 }
 
 // judge compares the four renderings of one job and returns the failing items as "object:class"
@@ -299,7 +398,7 @@ func (e *env) judge(o *outcome, answer string, record bool, only string) (failin
 	}
 	ref := refFile(v, e.provided)
 	impl := o.impl
-	pclass := e.packageClass(v)
+	pclass := e.packageClass(v, j)
 	disagree := func(d common.Disagreement) {
 		if record {
 			run.Disagree(d)
@@ -331,6 +430,9 @@ func (e *env) judge(o *outcome, answer string, record bool, only string) (failin
 		if record {
 			run.Count(j.ImportPath+"."+ob.Name, ob.Exported)
 			run.Hit("object:" + shape(ob))
+			for _, s := range repairedShapes(v, ob) {
+				run.Hit("shape:" + s)
+			}
 			if class != "" {
 				run.Hit("class:" + class)
 			} else {
@@ -350,10 +452,13 @@ func (e *env) judge(o *outcome, answer string, record bool, only string) (failin
 			disagree(common.Disagreement{Kind: "impl-vs-model", Input: in, Impl: io, Model: yo, Ref: ro})
 		}
 		same := io == ro
-		if !same && ob.Kind == "const" && ob.CKind == "float" {
+		if !same && ob.Kind == "const" && (ob.CKind == "float" || ob.CKind == "complex") {
 			// the decimal text may denote another rational and still be read back as the same constant
 			for _, en := range impl.Vals {
-				if en.Key == ob.Name && en.Form == "lit" && en.Tok == "FLOAT" && floatsAgree(ob, en.Raw) {
+				if en.Key == ob.Name && en.Form == "lit" && en.Tok == "FLOAT" && ob.CKind == "float" && floatsAgree(ob, en.Raw) {
+					same = true
+				}
+				if en.Key == ob.Name && en.Form == "lit" && en.Tok == "COMPLEX" && ob.CKind == "complex" && complexAgrees(ob, en.Raw) {
 					same = true
 				}
 			}
@@ -393,6 +498,9 @@ func (e *env) judge(o *outcome, answer string, record bool, only string) (failin
 		run.Count(j.ImportPath, true)
 		if pclass != "" {
 			run.Hit("class:package:" + pclass)
+		}
+		if onlyLiterals(v) {
+			run.Hit("shape:package whose bindings are all literals")
 		}
 	}
 	if impl.Err != "" || y.Err != "" {
@@ -435,7 +543,13 @@ func (e *env) judge(o *outcome, answer string, record bool, only string) (failin
 	}
 	// a header that differs only because some object diverges is not counted a second time
 	headerDiffers := (impl.header() != ref.header() || impl.order() != ref.order()) && objectFails == 0
-	perr := o.comp.pkgLevel
+	perr := append([]string{}, o.comp.pkgLevel...)
+	for _, pe := range o.pairErr {
+		perr = append(perr, "together with the wrapper of "+j.Sibling.ImportPath+": "+pe)
+	}
+	if record && j.Sibling != nil {
+		run.Hit("package:with-sibling")
+	}
 	if headerDiffers || len(perr) > 0 {
 		d := common.Disagreement{Kind: "impl-vs-ref", Input: pin, Impl: impl.header() + " " + impl.order(), Ref: ref.header() + " " + ref.order(), Finding: pclass}
 		if len(perr) > 0 {
@@ -451,6 +565,36 @@ func (e *env) judge(o *outcome, answer string, record bool, only string) (failin
 		disagree(d)
 	}
 	return failing
+}
+
+// onlyLiterals: every binding of the package is an untyped constant bound as a literal (nothing names the package).
+func onlyLiterals(v *VPkg) bool {
+	lits, named := 0, 0
+	for i := range v.Objs {
+		o := &v.Objs[i]
+		if !o.Exported {
+			continue
+		}
+		switch o.Kind {
+		case "const":
+			if o.Untyped && o.CKind != "bool" {
+				lits++
+			} else {
+				named++
+			}
+		case "var":
+			named++
+		case "func", "type":
+			if !o.Generic {
+				named++
+			}
+		case "iface":
+			if !o.Generic && o.MethodSet {
+				named++
+			}
+		}
+	}
+	return lits > 0 && named == 0
 }
 
 var identRE = regexp.MustCompile(`^[\p{L}_][\p{L}\p{Nd}_]*$`)
